@@ -69,6 +69,9 @@ type Violation struct {
 	PC       []string
 	Decisions []Decision
 	Entry    string
+	SymVals  []SymVal
+	Apps     []AppVal
+	Lits     []string
 }
 
 // Shared collects results across workers.
@@ -342,28 +345,63 @@ func (in *Interp) recordViolation(label, msg string, cons []*Term) {
 			ts = append(ts, s.T)
 		}
 		_, apps := in.tc.Collect(cons)
-		all := append(append([]*Term{}, ts...), apps...)
+		all := append([]*Term{}, ts...)
+		for _, a := range apps {
+			all = append(all, a)
+			for _, x := range a.args {
+				if !x.IsConst() {
+					all = append(all, x)
+				}
+			}
+		}
 		m := in.solver.Model(all)
 		for _, s := range in.syms {
-			if val, ok := m[s.T.id]; ok {
+			val := m[s.T.id]
+			v.SymVals = append(v.SymVals, SymVal{Name: s.Name, Kind: s.Kind, Val: val})
+			if val != nil {
 				v.Model[s.Name] = in.modelText(val)
 			}
 		}
 		for _, a := range apps {
-			if val, ok := m[a.id]; ok {
-				var as []string
-				for _, x := range a.args {
-					if xv, ok := m[x.id]; ok {
-						as = append(as, in.modelText(xv))
-					} else if x.IsConst() {
-						as = append(as, in.modelText(x))
-					} else {
-						ev := in.evalUnder(x, m)
-						as = append(as, ev)
-					}
-				}
-				v.UFs = append(v.UFs, fmt.Sprintf("%s(%s)=%s", a.str, strings.Join(as, ","), in.modelText(val)))
+			val, ok := m[a.id]
+			if !ok {
+				continue
 			}
+			av := AppVal{Name: a.str, Res: val}
+			var as []string
+			for _, x := range a.args {
+				xv := x
+				if !x.IsConst() {
+					xv = m[x.id]
+				}
+				av.Args = append(av.Args, xv)
+				if xv != nil {
+					as = append(as, in.modelText(xv))
+				} else {
+					as = append(as, "?")
+				}
+			}
+			v.Apps = append(v.Apps, av)
+			v.UFs = append(v.UFs, fmt.Sprintf("%s(%s)=%s", a.str, strings.Join(as, ","), in.modelText(val)))
+		}
+		seenLit := map[string]bool{}
+		var walk func(t *Term)
+		seenT := map[int]bool{}
+		walk = func(t *Term) {
+			if seenT[t.id] {
+				return
+			}
+			seenT[t.id] = true
+			if t.op == OpConstStr && !seenLit[t.str] {
+				seenLit[t.str] = true
+				v.Lits = append(v.Lits, t.str)
+			}
+			for _, a := range t.args {
+				walk(a)
+			}
+		}
+		for _, t := range cons {
+			walk(t)
 		}
 	}
 	v.Concrete = append(v.Concrete, in.concretes...)
